@@ -1,5 +1,6 @@
 """C08 — pruning structures never rule out a matching zone: builder/probe agreement and guard shape only."""
 from .util import *
+from .util import _closure_defs as util_closure_defs
 import json
 
 EXPLANATION = """
@@ -32,8 +33,8 @@ g) time values before 1970: (1) every zone that holds values of a time field get
    add_zone_range is called for a payload field (the pruner takes its candidates from the calendar only, so a zone without an entry is ruled out for every predicate); (2) TemporalPruner compares the
    zone temporal index (contains_ts, min_ts / max_ts) with the literal as given, not with the literal clamped to 0 (`at < -5` must not become `at < 0`); only calendar look-ups may use the clamped value.
 """
-FLOOR = 15
-REQUIRED = ["C08.a1", "C08.a2", "C08.a3", "C08.a4", "C08.b", "C08.c1", "C08.c2", "C08.c3", "C08.c4", "C08.c5", "C08.d", "C08.e", "C08.f", "C08.g", "C08.h"]
+FLOOR = 17
+REQUIRED = ["C08.a1", "C08.a2", "C08.a3", "C08.a4", "C08.b", "C08.c1", "C08.c2", "C08.c3", "C08.c4", "C08.c5", "C08.d", "C08.e", "C08.f", "C08.g", "C08.h", "C08.i", "C08.j"]
 
 
 def family(F, b):
@@ -682,3 +683,96 @@ def run(ctx):
             raise AnchorMissing("classified add_zone_range calls (%d)" % n)
         return bad
     ctx.run("C08.h", "K9 LOOP + K7", "TemporalIndexBuilder::build_for_zone_plans", "a zone is entered into the calendar for the bucket of every value it holds", h_)
+
+    def i_(inst):
+        """SuRF keys are byte strings in one order-preserving lane (sign-flipped i64). encode_value leaves that lane for a value
+        without an i64 view (raw u64 above i64::MAX, float beyond the i64 range). Two sides must stay in the lane or give up:
+        (1) RangePruner::apply_surf_only encodes the bound only behind a test that it has an i64 view or is an in-range float,
+        (2) ZoneSurfFilter::build_all_filtered hands a stored value to encode_value only behind the same kind of range test,
+        (3) TemporalPruner never looks up a made-up instant: the timestamp it probes with has no constant origin."""
+        bad = []
+        b = F.fn("RangePruner::apply_surf_only")
+        ev = one(b, r"surf_encoding::encode_value$")
+        isn = [c for c in b.calls if not c.cleanup and c.nname.endswith("Option::is_none") and any(l[0] == "call" and norm_path(l[1]).endswith("ScalarValue::as_i64") for l in b.origins(c.args[0]))]
+        isa = [c for c in b.calls if not c.cleanup and c.nname.endswith("Option::is_some_and") and any(l[0] == "call" and norm_path(l[1]).endswith("ScalarValue::as_f64") for l in b.origins(c.args[0]))]
+        cut = []
+        for c in isn + isa:
+            try:
+                cut += bool_result_edge(b, c, False)
+            except AnchorMissing:
+                pass
+        inst.sites += [sp(b, ev.bb)] + [sp(b, c.bb) for c in isn + isa]
+        if not isn or not cut or ev.bb in set(b.reach(0, cut_edges=cut)):
+            bad.append(("bound-lane-unchecked", "RangePruner::apply_surf_only encodes the bound without having established that it has an i64 view (or is a float inside the i64 range): a bound in the raw u64 / f64 lane is compared with sign-flipped i64 keys and zones holding matching rows are pruned", sp(b, ev.bb)))
+        z = F.fn("ZoneSurfFilter::build_all_filtered")
+        zev = [c for c in z.calls if not c.cleanup and c.nname.endswith("surf_encoding::encode_value")]
+        if not zev:
+            raise AnchorMissing("encode_value in ZoneSurfFilter::build_all_filtered")
+        fl = [c for c in z.calls if not c.cleanup and c.nname.endswith("Option::filter") and any(l[0] == "call" and norm_path(l[1]).endswith("ScalarValue::as_f64") for l in z.origins(c.args[0]))]
+        ranged = []
+        for c in fl:
+            for k_ in (util_closure_defs(z, c.args[1]) if len(c.args) > 1 else []):
+                if F.has(k_) and re.search(r"9223372036854775807|e18_f64|i64>::M(AX|IN)|i64::M(AX|IN)", json.dumps(F.fn_exact(k_).rec.get("blocks"))):
+                    ranged.append(c)
+        zcut = []
+        for c in ranged:
+            try:
+                zcut += variant_edge(z, c, "None", all_=True)
+            except AnchorMissing:
+                pass
+        inst.sites += [sp(z, c.bb) for c in zev] + ["range tests in front of encode_value (stored side): %d" % len(ranged)]
+        for c in zev:
+            if not zcut or not any(z.dominates_edge(e, c.bb) for e in zcut):
+                bad.append(("stored-value-leaves-lane", "ZoneSurfFilter::build_all_filtered hands a value to encode_value without a range test: a float beyond the i64 range (or a u64 above i64::MAX) is stored in another lane than every bound it is compared with", sp(z, c.bb)))
+        t = F.fn("TemporalPruner::apply_temporal_only")
+        mx = [c for c in t.calls if not c.cleanup and c.nname.endswith("Ord::max")]
+        probes = [c for c in t.calls if not c.cleanup and re.search(r"contains_ts$|zones_intersecting$", c.nname)]
+        if not probes:
+            raise AnchorMissing("calendar / zone-index probes in TemporalPruner::apply_temporal_only")
+        consts = set()
+        for c in probes:
+            for a_ in c.args[1:]:
+                for l in t.origins(a_, transparent=re.compile(r"Ord::max$")):
+                    if l[0] == "const" and re.match(r"^-?\d+_i64$", str(l[1])):
+                        consts.add(l[1])
+                for m_ in mx:
+                    if t._origin_locals(a_) & {x for x, _ in t.flow_forward(m_.dest)}:
+                        for l in t.origins(m_.args[0]):
+                            if l[0] == "const" and re.match(r"^-?\d+_i64$", str(l[1])):
+                                consts.add(l[1])
+        inst.sites.append("TemporalPruner: constant instants probed: %s" % sorted(consts))
+        if consts:
+            bad.append(("probe-with-made-up-instant", "TemporalPruner::apply_temporal_only probes the calendar with the constant %s for a literal it cannot read as a time: the zones of second 0 are returned instead of `cannot prune`" % sorted(consts), None))
+        return bad
+    ctx.run("C08.i", "K8 GUARD + K7", "RangePruner / ZoneSurfFilter::build_all_filtered / TemporalPruner", "a bound or value that cannot be ordered in the key lane makes the pruner give up", i_)
+
+    def j_(inst):
+        """`no structure` must mean `cannot prune`: (1) TemporalPruner answers Some(zones) only behind the Ok edge of a calendar load,
+        (2) ZoneXorFilterIndex::build_for_field does not leave a zone out of the index it returns: when a zone's filter cannot be
+        built, the field gets no index at all."""
+        bad = []
+        t = F.fn("TemporalPruner::apply_temporal_only")
+        loads = [c for c in t.calls if not c.cleanup and c.nname.endswith("load_field_calendar")]
+        if len(loads) < 2:
+            raise AnchorMissing("load_field_calendar calls in apply_temporal_only (%d)" % len(loads))
+        cut = []
+        for c in loads:
+            cut += variant_edge(t, c, "Ok", all_=True)
+        somes = [bb for (bb, jx, v, dst) in t.aggregates("option::Option", "Some") if dst == [0]]
+        inst.sites += [sp(t, c.bb) for c in loads] + ["%d Some(..) returns" % len(somes)]
+        seen = set(t.reach(0, cut_edges=cut))
+        for sb in somes:
+            if sb in seen:
+                bad.append(("answer-without-calendar", "TemporalPruner::apply_temporal_only can answer Some(zones) on a path on which no calendar was loaded: a missing / unreadable calendar prunes every zone", sp(t, sb)))
+                break
+        x = F.fn("ZoneXorFilterIndex::build_for_field")
+        tf = one(x, r"BinaryFuse8::try_from\w*$")
+        put = one(x, r"ZoneXorFilterIndex::put_zone_filter$")
+        err = variant_edge(x, tf, "Err", all_=True)
+        xsomes = [bb for (bb, jx, v, dst) in x.aggregates("option::Option", "Some") if dst == [0]]
+        inst.sites += [sp(x, tf.bb), sp(x, put.bb)]
+        reach_err = set(x.reach(0, src_edges=err))
+        if any(sb in reach_err for sb in xsomes):
+            bad.append(("zone-left-out-of-xor-index", "ZoneXorFilterIndex::build_for_field goes on after a zone's filter could not be built and returns an index without that zone: zones_maybe_containing never reports it, i.e. it is pruned for every equality probe", sp(x, tf.bb)))
+        return bad
+    ctx.run("C08.j", "K2 CUT", "TemporalPruner::apply_temporal_only / ZoneXorFilterIndex::build_for_field", "a missing pruning structure means `cannot prune`", j_)
